@@ -2,12 +2,13 @@
 import os
 
 from tools import common
-from tools.translate import gen_panel, gen_conn, gen_field, gen_num, gen_conecyl, gen_conecyl_nl, gen_shell_jacobian
+from tools.translate import gen_panel, gen_conn, gen_field, gen_num, gen_conecyl, gen_conecyl_nl, gen_shell_jacobian, gen_stiff
 from tools.translate import ctables as ct
 
 if __name__ == '__main__':
     gen_panel.translate_all()
     gen_conn.translate_all()
+    gen_stiff.translate_all()
     gen_field.translate_all()
     gen_num.translate_all()
     gen_conecyl.translate_all()
